@@ -296,6 +296,59 @@ func c10ChPool(e *Env) {
 				r.Check(okPut, rule, fmt.Sprintf("%s:Put#%d:after-receive", fname, k), w.Pos(c.Pos()), "the result channel is pooled only in the select case that received its result", "`"+types.ExprString(c)+"` is reached without having received from "+ch.Name()+": the goroutine still running for this call will send its (late) result to whoever gets the channel next")
 				return true
 			})
+			// the same holds for every other object the goroutine works on: it may be given back
+			// to its pool (Release…/Put) only in the case that received the goroutine's result
+			used := map[*types.Var]bool{}
+			var goStmts []*ast.GoStmt
+			ast.Inspect(fi.Decl.Body, func(nd ast.Node) bool {
+				if g, ok := nd.(*ast.GoStmt); ok {
+					goStmts = append(goStmts, g)
+					ast.Inspect(g, func(m ast.Node) bool {
+						if id, ok := m.(*ast.Ident); ok {
+							if uv, ok := info.Uses[id].(*types.Var); ok && !uv.IsField() && uv != v && uv != ch && uv.Pkg() == fi.Obj.Pkg() && uv.Parent() != uv.Pkg().Scope() {
+								used[uv] = true
+							}
+						}
+						return true
+					})
+				}
+				return true
+			})
+			kr := 0
+			ast.Inspect(fi.Decl.Body, func(nd ast.Node) bool {
+				c, ok := nd.(*ast.CallExpr)
+				if !ok || len(c.Args) != 1 {
+					return true
+				}
+				for _, g := range goStmts {
+					if within(c, g) {
+						return true
+					}
+				}
+				f := calleeOf(info, c)
+				if f == nil || !(strings.HasPrefix(f.Name(), "Release") || (f.Name() == "Put" && f.Pkg() != nil && f.Pkg().Path() == "sync")) {
+					return true
+				}
+				a := usedVar(info, c.Args[0])
+				if a == nil || !used[a] {
+					return true
+				}
+				kr++
+				okRel := false
+				for cur := ast.Node(c); cur != nil; cur = par[cur] {
+					if cc, ok := par[cur].(*ast.CommClause); ok && cc.Comm != nil {
+						ast.Inspect(cc.Comm, func(m ast.Node) bool {
+							if u, ok := m.(*ast.UnaryExpr); ok && u.Op == token.ARROW && usedVar(info, u.X) == ch {
+								okRel = true
+							}
+							return true
+						})
+					}
+				}
+				r.Check(okRel, rule, fmt.Sprintf("%s:%s(%s)#%d:after-receive", fname, f.Name(), a.Name(), kr), w.Pos(c.Pos()), "an object the worker goroutine uses is given back to its pool only in the select case that received the worker's result",
+					"`"+types.ExprString(c)+"` is reached without having received from "+ch.Name()+": on the timeout arm the goroutine started for this call is still using "+a.Name()+", which is reset and handed to the next Acquire while it is being written")
+				return true
+			})
 		}
 	}
 	r.Floor(rule, n, 1, "pooled result channels handed to a sender goroutine")
